@@ -441,10 +441,10 @@ theorem rmEmpty_cleanStruct_spec {g : Graph N} (hg : g.WF) (hac : isAcyclic g = 
 section Order
 variable [LT N] [DecidableRel (α := N) (· < ·)]
 
-/-- **the pruned graph of an accepted description**: exactly the live units and the kept connections between them -/
-theorem prepare_live {g g2 : Graph N} (hg : g.WF) (hp : prepare g = .ok g2) :
+/-- **the graph `chk_terminals` accepts**: exactly the live units and the kept connections between them -/
+theorem chkTerminals_live {g g2 : Graph N} (hg : g.WF) (hac : isAcyclic g = true)
+    (hchk : chkTerminals g.inPorts g.outPorts ((rmEmpty (cleanStruct g)).nodes.length + 1) (rmEmpty (cleanStruct g)) = .ok g2) :
     (∀ u, u ∈ g2.names ↔ LiveG g u) ∧ (∀ a b, (a, b) ∈ g2.edges ↔ KeptG g a b ∧ LiveG g a ∧ LiveG g b) := by
-  obtain ⟨hac, hchk, -, -⟩ := prepare_ok hp
   have hs := rmEmpty_cleanStruct_spec hg hac
   have hwf1 : (rmEmpty (cleanStruct g)).WF := hg.cleanStruct.rmEmpty
   have hI : g2.Induced (rmEmpty (cleanStruct g)) := chkTerminals_ok_induced (Graph.Induced.refl hwf1) hchk
@@ -484,6 +484,11 @@ theorem prepare_live {g g2 : Graph N} (hg : g.WF) (hp : prepare g = .ok g2) :
     · exact hkeep.2 u
   refine ⟨hlive, fun a b => ?_⟩
   rw [hI.edges (a, b), hs.2, hlive, hlive]
+
+/-- **the pruned graph of an accepted description**: exactly the live units and the kept connections between them -/
+theorem prepare_live [LT N] [DecidableRel (α := N) (· < ·)] {g g2 : Graph N} (hg : g.WF) (hp : prepare g = .ok g2) :
+    (∀ u, u ∈ g2.names ↔ LiveG g u) ∧ (∀ a b, (a, b) ∈ g2.edges ↔ KeptG g a b ∧ LiveG g a ∧ LiveG g b) :=
+  chkTerminals_live hg (prepare_ok hp).1 (prepare_ok hp).2.1
 
 end Order
 
